@@ -25,6 +25,7 @@ git -C $WT apply $SRC/patch.diff || { echo "patch does not apply in scratch work
 echo "== build WITH patch" >> $log; (cd $WT && go build ./... ) >> $log 2>&1; rb=$?
 echo "== demo WITH patch" >> $log; run_demo >> $log 2>&1; r1=$?
 echo "== existing quick tests WITH patch" >> $log
+(cd $WT && git clean -fdq)
 (cd $WT && go test -vet=off -count=1 ./amd/insts/... ./amd/bitops/... ./amd/kernels/... ./amd/timing/cp/internal/resource/... ./amd/emu/cdna3/... ./nvidia/... ) >> $log 2>&1; rt=$?
 cd $WT && git checkout -q -- . && git clean -fdq
 echo "demo without patch exit=$r0 (want 0); build=$rb (want 0); demo with patch exit=$r1 (want !=0); existing tests=$rt (want 0)" | tee -a $log
